@@ -108,6 +108,9 @@ type frame struct {
 
 type FCtx struct {
 	typeArgs map[string]types.Type // names of the type parameters of the generic callee whose contract is being evaluated
+	changed  bool                   // the function's own source differs from the ledgered one
+	renames  map[string]types.Object // old local name -> the local that took its place (pure renames only)
+	renamesRev map[string]string     // new local name -> old name
 	E                 *Engine
 	U                 *Universe
 	FI                *FuncInfo
